@@ -35,3 +35,16 @@ func VerifJSOptionsImmutable(n int) {
 }
 
 func verifOptM() *minify.M { return nil }
+
+// VerifJSSharedState (C13): one call with symbolic options, with or without the inline parameter, on a shared option
+// struct and a shared *minify.M, under the write-set monitor: no store to memory that existed before the call.
+func VerifJSSharedState(n int) {
+	o := &Minifier{KeepVarNames: vBool("a"), Precision: vChoice("p", 3), Version: []int{0, 5, 2015, 2020}[vChoice("v", 4)]}
+	m := verifOptM()
+	var params map[string]string
+	if vBool("inlineparam") {
+		params = map[string]string{"inline": "1"}
+	}
+	in := verifSharedInput(n, verifJSDocs)
+	verifNoSharedWrite(in, func(w *vWriter, r *vReader) error { return o.Minify(m, w, r, params) })
+}
